@@ -1967,10 +1967,17 @@ def rule_typedef_yields_one_instantiation(ctx, rep: Report, rid="N11"):
         return SampleObj(__kind__="TypedefTemplateInstantiation", typename=tn(target_name, *args), new_name=new_name)
     td_listed, td_new, td_fun, td_fwd, td_inner = td("Foo", "FooA", A), td("Foo", "FooC", C), td("twice", "twiceA", A), td("Ext", "ExtB", B), td("Foo", "InnerFoo", B)
     inner = SampleObj(__kind__="Namespace", name="inner", content=[td_inner], parent="")
+    # a namespace that holds only a bare template (typedef'd from outside, in front of it), an empty one, and one holding only such
+    box_t = SampleObj(__kind__="Class", name="Box", template=SampleObj(__kind__="Template", typenames=["T"], instantiations=[]))
+    detail = SampleObj(__kind__="Namespace", name="detail", content=[box_t], parent="")
+    reserved = SampleObj(__kind__="Namespace", name="reserved", content=[], parent="")
+    hollow = SampleObj(__kind__="Namespace", name="hollow", content=[SampleObj(__kind__="Namespace", name="deeper", content=[], parent="")], parent="")
+    td_box = td("Box", "BoxA", A)
     # (typedefs of a foreign template, a function template and a class template, in that order: kinds do not regroup them)
-    root = SampleObj(__kind__="Namespace", name="", content=[cls_t, fwd, td_fwd, cls_p, fun_t, td_fun, td_listed, cls_2, td_new, inner], parent="")
+    root = SampleObj(__kind__="Namespace", name="", content=[td_box, detail, cls_t, fwd, td_fwd, reserved, cls_p, fun_t, td_fun, td_listed, cls_2, td_new, hollow, inner],
+                     parent="")
     targets = {}
-    for t_, x_ in ((td_listed, cls_t), (td_new, cls_t), (td_fun, fun_t), (td_fwd, fwd), (td_inner, cls_t)):
+    for t_, x_ in ((td_listed, cls_t), (td_new, cls_t), (td_fun, fun_t), (td_fwd, fwd), (td_inner, cls_t), (td_box, box_t)):
         targets[id(t_)] = x_          # the table may be keyed by the typedef's id or by the typedef itself
         targets[t_] = x_
     ctor_names = {q.split(".")[-1] for q in ("InstantiatedClass", "InstantiatedGlobalFunction", "InstantiatedDeclaration")}
@@ -2018,6 +2025,23 @@ def rule_typedef_yields_one_instantiation(ctx, rep: Report, rid="N11"):
     rep.add(rid, "enumerated combinations:first parameter slowest, in the order the lists are written (whatever the parameters are called)",
             combos == [["A", "C"], ["A", "D"], ["B", "C"], ["B", "D"]],
             f"`template<POSE={{A,B}}, POINT={{C,D}}>` is instantiated as {combos}: the sequence depends on how the parameters are spelled - renaming them changes the output", loc)
+    # the namespaces of the scope pass through, every one of them, in their order - also one that holds nothing once its templates are gone
+    after = root.get("content") if isinstance(root.get("content"), list) else []
+    ns_after = [x["name"] for x in after if isinstance(x, SampleObj) and x.get("__kind__") == "Namespace"]
+    deeper_kept = any(isinstance(x, SampleObj) and x.get("name") == "deeper" for x in (hollow.get("content") or []))
+    rep.add(rid, "namespaces:every nested namespace stays in its scope, in order, whatever is left in it", ns_after == ["detail", "reserved", "hollow", "inner"] and deeper_kept,
+            f"the scope declares the namespaces detail (a bare template only), reserved (empty), hollow (an empty namespace only), inner; after instantiation it holds "
+            f"{ns_after}{'' if deeper_kept else ' and hollow::deeper is gone'}: a class typedef'd from a dropped namespace is bound to a submodule / package that is never declared", loc)
+    # typedef'd instantiations stand behind the nested namespaces of their scope: the generators declare a namespace's submodule when they
+    # reach its block, and a class of a template from that namespace is bound to that submodule
+    pos = {id(x): i_ for i_, x in enumerate(after)}
+    box_made = [x for x in made if any(p is td_box["new_name"] or p == "BoxA" for p in parts(x))]
+    detail_at = next((i_ for i_, x in enumerate(after) if x is detail or (isinstance(x, SampleObj) and x.get("name") == "detail")), None)
+    ok_place = len(box_made) == 1 and detail_at is not None and pos.get(id(box_made[0]), -1) > detail_at
+    rep.add(rid, "typedef:an instantiation of a template from a nested namespace is placed behind that namespace", ok_place,
+            f"`typedef detail::Box<A> BoxA;` written in front of `namespace detail {{ ... }}`: the instantiation stands at position "
+            f"{pos.get(id(box_made[0])) if box_made else None}, the namespace at {detail_at}: the pybind module binds BoxA to m_detail before `pybind11::module m_detail` is declared",
+            loc)
     listed = [x for x in made if x["__kind__"] == "InstantiatedClass" and any(p is cls_t for p in parts(x)) and len(parts(x)) == 2]
     rep.add(rid, "typedef:the template's own combinations are instantiated besides the typedefs", len(listed) == 2,
             f"{len(listed)} instantiation(s) from the lists of `template<T={{A, B}}> class Foo`, 2 expected", loc, nontrivial=False)
@@ -2217,3 +2241,64 @@ def rule_explicit_template_arguments_by_evaluation(ctx, rep: Report, rid="B14"):
                 f"for `consume` instantiated with (double, gtsam::Pose3, std::vector<gtsam::Point2>, gtsam::PinholeCamera<gtsam::Cal3Bundler>) the callee is spelled "
                 f"`{text}`, the declared instantiation is `{want}`: the binding calls another instantiation than the one it was generated for (or none that exists)",
                 f"{ci.mod.rel}:{fn.lineno}")
+
+
+# ------------------------------------------------------------------------------------------ P14 each listed instantiation is taken on its own
+def rule_listed_types_taken_entry_by_entry(ctx, rep: Report, rid="P14"):
+    """What an entry of an instantiation list `T = {A, std::vector<A>, ...}` becomes is decided by that entry alone - a plain type
+    stays the Typename it is, a templated type contributes its `typename` - whatever else the list holds and in whatever order.
+    Decided by running Template.TypenameAndInstantiations.__init__ (the analyser's own interpreter) on lists of plain types,
+    of templated types, and on mixed lists in both orders, and comparing every entry with what the list holding it alone gives."""
+    from .rules_matlab import SampleObj, _PathEval, _Raised, mini_exec
+    prog = ctx.prog
+    try:
+        ci = prog.cls("Template.TypenameAndInstantiations")
+    except Exception:
+        raise AnalysisError(f"{rep.prop}/{rid}: Template.TypenameAndInstantiations not found")
+    fn = ci.methods.get("__init__")
+    if fn is None:
+        raise AnalysisError(f"{rep.prop}/{rid}: Template.TypenameAndInstantiations.__init__ not found")
+    ps = func_params(fn)
+    loc = f"{ci.mod.rel}:{fn.lineno}"
+    if len(ps) != 3:
+        rep.add(rid, "instantiation lists:entries taken one by one", True, "signature changed; not decided", loc, nontrivial=False)
+        return
+
+    def plain(name, ns=()):
+        return SampleObj(__kind__="Typename", name=name, namespaces=list(ns), instantiations=[], __complete__=True)
+
+    def templ(name, ns, arg):
+        t = SampleObj(__kind__="Typename", name=name, namespaces=list(ns), instantiations=[arg], __complete__=True)
+        return SampleObj(__kind__="TemplatedType", typename=t, template_params=[arg], is_const="", is_ref="", is_ptr="", is_shared_ptr="", __complete__=True)
+    A, B = plain("Pose", ["demo"]), plain("double")
+    V, M = templ("vector", ["std"], plain("Pose", ["demo"])), templ("Matrix", ["Eigen"], plain("double"))
+
+    def run(entries):
+        me = SampleObj(__kind__="TypenameAndInstantiations")
+        mini_exec(fn, {ps[0]: me, ps[1]: "T", ps[2]: list(entries)}, budget=4000)
+        return me.get("instantiations")
+
+    def want(e):
+        return e["typename"] if e.get("__kind__") == "TemplatedType" else e
+    probs, n = [], 0
+    try:
+        for label, entries in (("{A, B}", [A, B]), ("{std::vector<A>, Eigen::Matrix<double>}", [V, M]), ("{A, std::vector<A>}", [A, V]),
+                               ("{std::vector<A>, A}", [V, A]), ("{B, Eigen::Matrix<double>, A, std::vector<A>}", [B, M, A, V]), ("{}", [])):
+            got = run(entries)
+            n += 1
+            if not isinstance(got, list) or len(got) != len(entries):
+                probs.append(f"{label} gives {len(got) if isinstance(got, list) else got} entries")
+                continue
+            for k, (e, g) in enumerate(zip(entries, got)):
+                if g is not want(e):
+                    kind = "templated type" if e.get("__kind__") == "TemplatedType" else "plain type"
+                    probs.append(f"{label}: entry {k + 1} (a {kind}) is not what the same entry gives alone"
+                                 + (" - a TemplatedType is left in the list" if isinstance(g, dict) and g.get("__kind__") == "TemplatedType" else ""))
+    except _Raised as ex:
+        probs.append(f"a mixed list is refused ({str(ex)[:60]}) where each of its entries alone is accepted")
+    except (_PathEval.Unknown, TypeError, KeyError, IndexError, AttributeError) as ex:
+        raise AnalysisError(f"{rep.prop}/{rid}: Template.TypenameAndInstantiations.__init__ could not be evaluated ({str(ex)[:60]})")
+    rep.units["instantiation_lists_evaluated"] = n
+    rep.add(rid, "instantiation lists:every entry becomes what it becomes alone, whatever else is listed and in which order", not probs,
+            f"{probs[:3]}: `template<T={{A, B}}>` then does not give for A what `template<T={{A}}>` gives (the wrap run fails, or a TemplatedType reaches "
+            f"code that expects a Typename)", loc)
